@@ -1,6 +1,8 @@
 (* C10 - concurrent validations do not interfere.  Statements only; proofs in Proofs/SchedProofs.v. *)
 From Coq Require Import Permutation.
+From Coq Require Import Sorted.
 From ACV Require Import Base.Strs Model.Sched Model.SharedRef Proofs.SchedProofs Extracted.SharedFacts.
+From ACV Require Model.Interleave Proofs.InterleaveProofs Proofs.SchedInterleave.
 Local Open Scope list_scope.
 
 (* ties: the package-level variables are exactly the classified ones, the counter is bumped by one atomic
@@ -28,9 +30,52 @@ Theorem C10_refuted_reset :
   numbers_of 0 (run {| counter := 0; handed := [] |} s) = [1; 2; 1; 2].
 Proof. exact reset_refuted. Qed.
 
+
+(* calls as threads over private state + the atomic counter (Model/Interleave.v, abbreviated I), EVERY schedule: a call
+   ends in the state it reaches by itself when fed the numbers it was handed ... *)
+Module I := Interleave.
+Module IP := InterleaveProofs.
+Theorem C10_noninterference : forall (P : Type) (s : I.schedule P) (w : I.world P) (t : nat),
+  I.priv (I.run w s) t = I.alone (I.priv w t) (I.program_of t s) (I.handed (I.ctr w) t s).
+Proof. exact IP.noninterference. Qed.
+(* ... those numbers increase strictly, and no other call holds any of them (so its generated names are as distinct as in a
+   compilation by itself, and are not names of another call's module) ... *)
+Theorem C10_numbers_increase : forall (P : Type) (s : I.schedule P) c t, StronglySorted lt (I.handed c t s).
+Proof. exact IP.handed_increasing. Qed.
+Theorem C10_numbers_disjoint : forall (P : Type) (s : I.schedule P) c t u n, In n (I.handed c t s) -> In n (I.handed c u s) -> t = u.
+Proof. exact IP.handed_disjoint. Qed.
+(* ... and a call that takes no number (a validation with a compiled profile) ends exactly as it does by itself *)
+Theorem C10_validation_noninterference : forall (P : Type) (s : I.schedule P) (w : I.world P) t,
+  IP.no_gen P (I.program_of t s) = true -> I.priv (I.run w s) t = I.alone (I.priv w t) (I.program_of t s) [].
+Proof. exact IP.validation_noninterference. Qed.
+(* the two models of the counter agree: the numbers the log of Sched.v records for a compilation are the numbers computed
+   from the schedule alone *)
+Theorem C10_models_agree : forall s c t, only_gen s = true ->
+  numbers_of t (run {| counter := c; handed := [] |} s) = I.handed c t (SchedInterleave.embed s).
+Proof. exact SchedInterleave.sched_numbers_are_interleave_handed. Qed.
+(* what the classification of the package-level variables (C10_tie_globals) rules out: a cell shared by the calls that one
+   step writes and a later step of the same call reads - the schedule write, write, read, read hands the first call the
+   second call's text; with the cell inside the call's own state every schedule gives the call its own text *)
+Theorem C10_refuted_shared_cell :
+  let s := [(0, I.SWrite 10); (1, I.SWrite 20); (0, I.SRead); (1, I.SRead)] in
+  I.sprogram_of 0 s = [I.SWrite 10; I.SRead] /\ I.sprogram_of 1 s = [I.SWrite 20; I.SRead]
+  /\ I.got (I.srun (I.Build_sworld 0 (fun _ => None)) s) 0 = Some 20
+  /\ I.got (I.srun (I.Build_sworld 0 (fun _ => None)) [(0, I.SWrite 10); (0, I.SRead)]) 0 = Some 10.
+Proof. exact IP.shared_cell_refuted. Qed.
+Theorem C10_private_cell : forall (s : I.schedule (nat * option nat)) w t v,
+  I.program_of t s = [IP.own_write v; IP.own_read] -> snd (I.priv (I.run w s) t) = Some v.
+Proof. exact IP.private_cell_holds. Qed.
+
 Print Assumptions C10_tie_globals.
 Print Assumptions C10_tie_counter.
 Print Assumptions C10_unique.
 Print Assumptions C10_unique_per_compilation.
 Print Assumptions C10_refuted_nonatomic.
 Print Assumptions C10_refuted_reset.
+Print Assumptions C10_noninterference.
+Print Assumptions C10_numbers_increase.
+Print Assumptions C10_numbers_disjoint.
+Print Assumptions C10_validation_noninterference.
+Print Assumptions C10_refuted_shared_cell.
+Print Assumptions C10_private_cell.
+Print Assumptions C10_models_agree.
